@@ -5,6 +5,7 @@ model (`QCfg`), of the close/worker-exit handshake (`HCfg`) and of the Get/Close
 import NoKVModel.Queue.Model
 import NoKVModel.Queue.HandshakeModel
 import NoKVModel.Queue.CloserModel
+import NoKVModel.Queue.PackModel
 
 namespace NoKV.Queue
 
@@ -12,8 +13,9 @@ structure AllCfg where
   q : QCfg
   h : HCfg
   w : CCfg
+  p : PCfg
   deriving DecidableEq, Repr
 
-def AllCfg.good : AllCfg := { q := QCfg.good, h := HCfg.good, w := CCfg.good }
+def AllCfg.good : AllCfg := { q := QCfg.good, h := HCfg.good, w := CCfg.good, p := PCfg.good }
 
 end NoKV.Queue
